@@ -171,6 +171,52 @@ def check_limit_adapter(res, facts, trait, head, tname, inner_rem, chunk_m, adv_
                         break
             return probs
         decide("%s::%s" % (tname, m), method_body(facts, trait, head, m), cons_probs, "guard cnt <= limit; inner.%s(cnt); limit -= cnt on the same paths" % m)
+    # every other method the adapter overrides: whatever it consumes through `inner` must be accounted for in `limit`
+    known = {inner_rem, chunk_m, adv_m, "chunks_vectored"} | set(extra)
+    NON_CONSUMING = {"remaining", "chunk", "has_remaining", "chunks_vectored", "remaining_mut", "chunk_mut", "has_remaining_mut"}
+    AMOUNT = {"advance": ("arg", 1), "advance_mut": ("arg", 1), "copy_to_bytes": ("arg", 1), "put_bytes": ("arg", 2),
+              "put_slice": ("len", 1), "copy_to_slice": ("len", 1)}
+    for im in facts.impls:
+        if im.get("trait") != trait or im["self_ty"].split("<", 1)[0] != head.split("<", 1)[0]:
+            continue
+        for it in im["items"]:
+            if it["name"] in known or it.get("did") is None or it["did"] not in facts.by_did:
+                continue
+
+            def other_probs(b):
+                probs = []
+                cs = [c for c in calls_in(b, facts) if c[1].get("trait") == trait and c[1]["name"] not in NON_CONSUMING
+                      and c[2] and self_field("inner")(strip_refs(canon(c[2][0])))]
+                if not cs:
+                    return probs
+                ws = field_writes(b, facts, "limit")
+                cfg = cfg_of(b)
+                for (bi, fn, args, t) in cs:
+                    m = fn["name"]
+                    how = AMOUNT.get(m)
+                    if how is None or len(args) <= how[1]:
+                        probs.append("consumes through inner.%s, whose byte count this rule cannot account for in `limit`" % m)
+                        continue
+                    x = canon(args[how[1]])
+                    if how[0] == "len":
+                        x = ("call", "core::slice::<impl [T]>::len", (x,))
+                    xs = (canon(x), canon(("call", "core::slice::<impl [T]>::len", (strip_refs(x[2][0]),))) if how[0] == "len" else canon(x))
+                    rels = relations_at(b, bi, facts, inline=True)
+                    guarded = any(r[0] in ("le", "lt") and canon(r[1]) in xs and (lim(canon(r[2])) or is_min_of(canon(r[2]), lambda z: True, lim)) for r in rels)
+                    if not guarded:
+                        probs.append("no dominating guard `count <= self.limit` (or <= remaining) before inner.%s" % m)
+                    okw = [w for w in ws if isinstance(canon(w[2]), tuple) and canon(w[2])[:3] == ("bin", "Sub", ("field", ("deref", ("param", 1)), "limit")) and canon(w[2])[3] in xs]
+                    if len(okw) != 1:
+                        probs.append("inner.%s consumes %s bytes but `self.limit -= <that count>` is missing (%d writes to limit)" % (m, fmt_expr(x)[:40], len(ws)))
+                        continue
+                    wb = okw[0][0]
+                    for path in enumerate_paths(b):
+                        if (bi in path) != (wb in path):
+                            probs.append("a returning path has inner.%s without the limit decrement (or vice versa)" % m)
+                            break
+                return probs
+            ob = facts.by_did[it["did"]]
+            decide("%s::%s" % (tname, it["name"]), ob, other_probs, "override: everything consumed through inner is guarded by and subtracted from limit (or nothing is consumed)")
     # accessors
     for acc, want in (("limit", "get"), ("set_limit", "set"), ("get_ref", "inner"), ("get_mut", "inner"), ("into_inner", "inner")):
         b = inherent_body(facts, head.split("<")[0], acc)
